@@ -103,6 +103,8 @@ def _gen_op(rng, k, kind, probe_only):
         build = []
         if rng.random() < 0.5:
             build.append(["disable_rule_by_identifier", rng.choice(["md013", "md041", "md022"])])
+        if rng.random() < 0.35:
+            build.append(["set_string_property", "mode.return_code_scheme", rng.choice(["minimal", "minimal", "default"])])
         if call in ("scan_path", "fix_path", "list_path"):
             target = "o%d" % k if use_dir or rng.random() < 0.4 else sorted(files)[0]
             if target == "o%d" % k and any("/" in p[len(prefix) :] for p in files):
